@@ -37,6 +37,13 @@ Definition nodup_str (l : list str) : bool :=
 (* no string is claimed twice (within one record or across records) *)
 Definition strict_okb (rs : list record) : bool :=
   nodup_str (flat_map all_prefixes rs) && nodup_str (flat_map all_uris rs).
+(* the exact acceptance condition of the strict constructor: no string claimed by two records at different positions *)
+Fixpoint clash (keysf : record -> list str) (rs : list record) : bool :=
+  match rs with
+  | [] => false
+  | r :: rest => existsb (fun r' => existsb (fun k => mem k (keysf r')) (keysf r)) rest || clash keysf rest
+  end.
+Definition strictb (rs : list record) : bool := negb (clash all_uris rs) && negb (clash all_prefixes rs).
 Definition is_nil {A} (l : list A) : bool := match l with [] => true | _ => false end.
 Definition valid_q (k : qcase) : bool := strict_okb (qc_recs k) && negb (is_nil (qc_delim k)).
 
